@@ -27,6 +27,7 @@ type CheckConfig struct {
 	LockSweep     []string               `json:"lock_sweep"` // lock mode over every function with one of these key prefixes: lockset obligations only
 	LockSweepSkip []string               `json:"lock_sweep_skip"`
 	Sweep         []string               `json:"sweep"` // thorough: zero-annotation no-panic sweep over functions with this key prefix
+	LockOrder     bool                   `json:"lock_order"` // class-level lock-order graph over the whole module must be acyclic (see lockorder.go)
 }
 
 type BoundedCheck struct {
@@ -271,6 +272,48 @@ func cmdCheck(args []string) {
 			}
 			all = append(all, r.Obls...)
 		}
+	}
+	var lockOrderCov map[string]any
+	if cfg.LockOrder && shard == 0 {
+		t0 := time.Now()
+		lo := lockOrder(E)
+		secs := time.Since(t0).Seconds()
+		bad := map[string]bool{}
+		for _, s := range lo.BadSites {
+			bad[s.Fn+"|"+s.Pos+"|"+s.Held+"|"+s.Acq] = true
+		}
+		n := len(lo.Sites)
+		seenName := map[string]bool{}
+		for _, s := range lo.Sites {
+			name := fmt.Sprintf("%s#lockorder: %s is taken before %s", s.Fn, s.Held, s.Acq)
+			if seenName[name] && !bad[s.Fn+"|"+s.Pos+"|"+s.Held+"|"+s.Acq] {
+				continue
+			}
+			seenName[name] = true
+			o := &Obligation{Fn: s.Fn, Kind: "lockorder", Name: name, Pos: s.Pos, Hyp: E.TS.True(), Goal: E.TS.True(), Status: "proved", Solver: "govc-lockorder (order graph acyclic)", Secs: secs / float64(n+1)}
+			o.Desc = fmt.Sprintf("holding %s while acquiring %s (%s) puts no cycle into the lock-order graph of the module", s.Held, s.Acq, s.Via)
+			if bad[s.Fn+"|"+s.Pos+"|"+s.Held+"|"+s.Acq] {
+				o.Status = "failed"
+				o.Goal = E.TS.False()
+				var cyc []string
+				for _, c := range lo.Cycles {
+					for _, m := range c {
+						if m == s.Held {
+							cyc = c
+						}
+					}
+				}
+				var others []string
+				for _, t := range lo.BadSites {
+					others = append(others, fmt.Sprintf("%s (%s): holds %s, acquires %s via %s", t.Fn, t.Pos, t.Held, t.Acq, t.Via))
+				}
+				o.Model = "lock-order cycle among " + strings.Join(cyc, ", ") + "\nedges on the cycle:\n  " + strings.Join(others, "\n  ")
+			}
+			all = append(all, o)
+			obTS[o] = E.TS
+		}
+		lockOrderCov = map[string]any{"functions": lo.Functions, "lock_classes": lo.Classes, "order_edges": lo.Edges, "order_sites": len(lo.Sites), "cycles": lo.Cycles,
+			"same_class_nesting_sites_left_to_lockset_obligations": len(lo.SameClass), "unresolved_dynamic_calls_by_type": lo.Unknown}
 	}
 	for _, k := range cfg.Lemmas {
 		run(k, false, true)
@@ -526,6 +569,9 @@ func cmdCheck(args []string) {
 			errs = append(errs, k+": "+e)
 		}
 		sort.Strings(errs)
+		if lockOrderCov != nil {
+			cov["lock_order"] = lockOrderCov
+		}
 		cov["lock_sweep"] = map[string]any{"prefixes": cfg.LockSweep, "functions_checked": lockSweepFns, "functions_not_handled": errs}
 	}
 	if tier == "thorough" {
